@@ -244,3 +244,149 @@ impl Actor for RemoteActor {
         Ok(())
     }
 }
+
+/// Verification hooks (feature `verif`, add-only): drive a real [RemoteActorState] through
+/// the real `handle_serialized`, with a recording stand-in for the node session.
+#[cfg(feature = "verif")]
+#[allow(missing_docs, missing_debug_implementations, unreachable_pub)]
+pub mod verif_hooks {
+    use std::collections::HashMap;
+    use std::sync::{Arc, Mutex};
+
+    use super::*;
+
+    /// The budget constant of `cleanup_closed_pending_requests`
+    pub const CLEANUP_BUDGET: usize = PENDING_REQUEST_CLEANUP_BUDGET;
+
+    /// A frame the proxy handed to its session: `(is_call, to, tag, payload)`
+    pub type Frame = (bool, u64, u64, Vec<u8>);
+
+    struct RecordingSession(Arc<Mutex<Vec<Frame>>>);
+
+    #[cfg_attr(feature = "async-trait", ractor::async_trait)]
+    impl Actor for RecordingSession {
+        type Msg = crate::node::NodeSessionMessage;
+        type State = ();
+        type Arguments = ();
+        async fn pre_start(&self, _: ActorRef<Self::Msg>, _: ()) -> Result<(), ActorProcessingErr> {
+            Ok(())
+        }
+        async fn handle(
+            &self,
+            _: ActorRef<Self::Msg>,
+            message: Self::Msg,
+            _: &mut (),
+        ) -> Result<(), ActorProcessingErr> {
+            if let NodeSessionMessage::SendMessage(m) = message {
+                match m.msg {
+                    Some(crate::protocol::node::node_message::Msg::Call(c)) => {
+                        self.0.lock().unwrap().push((true, c.to, c.tag, c.what))
+                    }
+                    Some(crate::protocol::node::node_message::Msg::Cast(c)) => {
+                        self.0.lock().unwrap().push((false, c.to, 0, c.what))
+                    }
+                    _ => {}
+                }
+            }
+            Ok(())
+        }
+    }
+
+    /// A real `RemoteActorState` + the callers' ends of the reply ports.
+    pub struct ProxyProbe {
+        state: RemoteActorState,
+        myself: ActorRef<RemoteActorMessage>,
+        session: ActorRef<crate::node::NodeSessionMessage>,
+        frames: Arc<Mutex<Vec<Frame>>>,
+        callers: HashMap<u64, ractor::concurrency::OneshotReceiver<Vec<u8>>>,
+    }
+
+    impl ProxyProbe {
+        pub async fn new() -> Self {
+            let frames = Arc::new(Mutex::new(Vec::new()));
+            let (session, _) = Actor::spawn(None, RecordingSession(frames.clone()), ())
+                .await
+                .expect("recording session");
+            let (myself, _) = Actor::spawn(None, RemoteActor, session.clone())
+                .await
+                .expect("remote actor shell");
+            Self {
+                state: RemoteActorState::new(session.clone()),
+                myself,
+                session,
+                frames,
+                callers: HashMap::new(),
+            }
+        }
+
+        async fn handle(&mut self, m: SerializedMessage) {
+            RemoteActor
+                .handle_serialized(self.myself.clone(), m, &mut self.state)
+                .await
+                .expect("handle_serialized");
+        }
+
+        /// A local caller `port` issues a call with `payload`.
+        pub async fn call(&mut self, port: u64, payload: Vec<u8>) {
+            let (tx, rx) = ractor::concurrency::oneshot();
+            self.callers.insert(port, rx);
+            self.handle(SerializedMessage::Call {
+                variant: "call".to_string(),
+                args: payload,
+                reply: tx.into(),
+                metadata: None,
+            })
+            .await;
+        }
+
+        pub async fn cast(&mut self, payload: Vec<u8>) {
+            self.handle(SerializedMessage::Cast {
+                variant: "cast".to_string(),
+                args: payload,
+                metadata: None,
+            })
+            .await;
+        }
+
+        pub async fn reply(&mut self, tag: u64, data: Vec<u8>) {
+            self.handle(SerializedMessage::CallReply(tag, data)).await;
+        }
+
+        /// The caller abandons its call (drops the receiving end).
+        pub fn abandon(&mut self, port: u64) {
+            self.callers.remove(&port);
+        }
+
+        /// What caller `port` has received so far (consumes it).
+        pub fn received(&mut self, port: u64) -> Option<Vec<u8>> {
+            self.callers.get_mut(&port).and_then(|rx| rx.try_recv().ok())
+        }
+
+        /// The session goes away: subsequent sends from the proxy fail.
+        pub async fn kill_session(&mut self) {
+            self.session
+                .stop_and_wait(None, None)
+                .await
+                .expect("stop recording session");
+        }
+
+        /// `(message_tag, pending tags ascending, cleanup cursor)`
+        pub fn snapshot(&self) -> (u64, Vec<u64>, Option<u64>) {
+            (
+                self.state.message_tag,
+                self.state.pending_requests.keys().copied().collect(),
+                self.state.pending_request_cleanup_cursor,
+            )
+        }
+
+        /// Frames recorded by the session so far (drained).
+        pub fn take_frames(&mut self) -> Vec<Frame> {
+            std::mem::take(&mut *self.frames.lock().unwrap())
+        }
+
+        pub fn shutdown(&self) {
+            self.myself.stop(None);
+            self.session.stop(None);
+        }
+    }
+}
